@@ -673,9 +673,19 @@ func runOne(chk *Check, run *Run, spec json.RawMessage, i int) *Result {
 	if err != nil {
 		return &Result{Case: i, HarnessErr: err.Error()}
 	}
-	defer os.RemoveAll(dir)
+	keep := false
+	defer func() {
+		if keep {
+			fmt.Fprintf(os.Stderr, "VERIF_KEEP: case directory kept at %s\n", dir)
+			return
+		}
+		os.RemoveAll(dir)
+	}()
 	t0 := time.Now()
 	res := chk.RunCase(run, spec, dir)
+	if res != nil && len(res.Violations) > 0 && os.Getenv("VERIF_KEEP") != "" {
+		keep = true
+	}
 	if res == nil {
 		res = &Result{}
 	}
@@ -711,7 +721,9 @@ func replay(chk *Check, file string) int {
 	if err != nil {
 		return ExitHarness
 	}
-	defer os.RemoveAll(dir)
+	if os.Getenv("VERIF_KEEP") == "" {
+		defer os.RemoveAll(dir)
+	}
 	run := &Run{ID: chk.ID, Tier: doc.Tier, Seed: doc.Seed, Scratch: dir, Workers: 1}
 	os.Setenv("VERIF_KEEPLOG", "1")
 	res := runOne(chk, run, doc.Spec, doc.Case)
